@@ -1,7 +1,7 @@
 """C04 — collider AABBs enclose and are tight (structural clauses; the closed-form extents are NOT decided)."""
 from . import scopes
 from ..core.report import DOMAIN_D
-from ..rules import colliders, frame, degree
+from ..rules import colliders, frame, degree, hydro, safediv
 from .common import e2
 
 MODS = {"distance3d.containment", "distance3d.colliders", "distance3d.geometry", "distance3d.utils", "distance3d.mesh"}
@@ -15,7 +15,7 @@ def run(idx, rep, tier):
         "lower and adds it to the upper bounds of the inner box. R-AXIS: the distinguished axis index agrees across support, "
         "AABB, containment test and collider methods. R-FRAME / R-FRAMERET (engine E2): all *_aabb functions and collider "
         "aabb() methods are frame consistent and return world-frame bounds. R-WORLDAABB: RigidBody.aabb must apply "
-        "body2origin_. R-DEGREE (engine E3): every extent is homogeneous of degree 1. Enclosure and tightness of the closed "
+        "body2origin_. R-SQRTDOMAIN: the radicands of the closed-form extents (1 - c^2 of a rotation entry) are clamped at 0, so a pose that is orthonormal only to one ulp cannot produce a NaN box. R-INVALIDATE: RigidBody methods that reassign vertices / pose data reset the caches aabb() reads. R-DEGREE (engine E3): every extent is homogeneous of degree 1. Enclosure and tightness of the closed "
         "forms (e.g. the rotated-ellipsoid extent) are numerical and NOT decided.")
     rep.assumptions = DOMAIN_D
     colliders.r_aabbargs(idx, rep)
@@ -26,4 +26,7 @@ def run(idx, rep, tier):
     frame.r_frame(idx, rep, fr_rets, modules=wide, floor=40)
     frame.r_frame_contracts(idx, rep, fr_rets, ("aabb",), floor=8, unknown_ceiling=8)
     frame.r_worldaabb(idx, rep)
+    colliders.r_coherence(idx, rep, relevant_to="aabb")      # 'every collider' includes colliders that were moved with update_pose
+    safediv.r_sqrtdomain(idx, rep, modules=["distance3d.containment"], floor=4, unknown_ceiling=2, sqrt_calls=("np.sqrt", "math.sqrt"))
+    hydro.r_invalidate(idx, rep, relevant_to="aabb", floor=2)      # RigidBody.aabb() is the root box of a cached tree
     degree.r_degree(idx, rep, modules=sorted(MODS), floor=20)
